@@ -90,7 +90,82 @@ impl KVec {
     }
 }
 
+impl KVec {
+    /// model of std sort_unstable: ascending
+    pub fn sort_unstable(&mut self) {
+        let mut i = 1;
+        while i < self.len {
+            let mut j = i;
+            while j > 0 && self.buf[j - 1] > self.buf[j] {
+                self.buf.swap(j - 1, j);
+                j -= 1;
+            }
+            i += 1;
+        }
+    }
+    /// model of std dedup: removes consecutive repeated elements
+    pub fn dedup(&mut self) {
+        if self.len == 0 {
+            return;
+        }
+        let mut w = 1;
+        let mut r = 1;
+        while r < self.len {
+            if self.buf[r] != self.buf[w - 1] {
+                self.buf[w] = self.buf[r];
+                w += 1;
+            }
+            r += 1;
+        }
+        self.len = w;
+    }
+}
+
 include!("/verif/kani/gen/kx_cpulist_part.rs");
+include!("/verif/kani/gen/kx_cpulist_tail.rs");
+
+/// the tail of parse_cpulist (`out.sort_unstable(); out.dedup();`): whatever the parts pushed,
+/// in whatever order and with whatever repetitions, the result is strictly increasing and
+/// holds exactly the same set of ids. B(<= 4 collected ids).
+#[kani::proof]
+#[kani::unwind(6)]
+fn c42_kx_cpulist_tail_sorted_set() {
+    let n: usize = kani::any();
+    kani::assume(n <= 4);
+    let input = KVec { buf: kani::any(), len: n };
+    let before = input.buf;
+    let out = kx_cpulist_tail(input);
+    let mut k = 1;
+    while k < out.len {
+        assert!(out.buf[k - 1] < out.buf[k]);
+        k += 1;
+    }
+    // same set: every input id is in the output and vice versa
+    let mut i = 0;
+    while i < n {
+        let mut found = false;
+        let mut j = 0;
+        while j < out.len {
+            found = found || out.buf[j] == before[i];
+            j += 1;
+        }
+        assert!(found);
+        i += 1;
+    }
+    let mut j = 0;
+    while j < out.len {
+        let mut found = false;
+        let mut i = 0;
+        while i < n {
+            found = found || out.buf[j] == before[i];
+            i += 1;
+        }
+        assert!(found);
+        j += 1;
+    }
+    kani::cover!(out.len < n);
+    kani::cover!(out.len == 4);
+}
 
 const W: usize = 4; // widest range explored (loop bound); ids themselves are unbounded
 
